@@ -326,7 +326,7 @@ def sweep(ctx, exe, bases, tag, fresh=False):
         outs, crashes = {}, {}
         for i, base in enumerate(bases):
             o, c = vlib.run_stream([exe], [base], ctx.tmp, "%s-count%d" % (tag, i), env=env)
-            outs[i] = o.get(0, [])
+            outs[i] = o.get(0, []) or []
             if 0 in c:
                 crashes[i] = c[0]
     else:
@@ -336,7 +336,7 @@ def sweep(ctx, exe, bases, tag, fresh=False):
     for i, base in enumerate(bases):
         cases.append(base)
         n = None
-        for line in reversed(outs.get(i, [])):
+        for line in reversed(outs.get(i, []) or []):
             m = _N.search(line)
             if m:
                 n = int(m.group(1))
